@@ -78,6 +78,195 @@ def build(rng, w, calls_per_action, noise=True):
             "probes": probes, "features": sorted(w.features), "world": w}
 
 
+
+# ------------------------------------------------------------------------------------------------ round 3: coinciding literals
+# The class seeded/C20_C needed: calls in which two DIFFERENT schema literals ground to the same atom --
+#   the same object bound to two parameters of related (equal / sub / super) types, or to a parameter and written as a constant,
+#   used at the same position of the same predicate -- so that the grounded literals have the same untyped text and (when the types
+#   differ) different typed text; placed as siblings of one connective, at the top level and inside a nested group, in two sibling
+#   groups, in one effect group, in a 'when' antecedent; the same for numeric conditions over a unary function.
+def walk_atoms(t, preds, out):
+    if isinstance(t, list) and t:
+        if isinstance(t[0], str) and t[0] in preds and all(isinstance(x, str) for x in t[1:]):
+            out.append(t)
+        elif isinstance(t[0], str) and t[0] == "forall":
+            return                                   # quantified bodies are reported lifted (D38): not the place for this class
+        else:
+            for x in t:
+                walk_atoms(x, preds, out)
+
+
+def related_types(w, t):
+    """types comparable with t in the subtype order"""
+    return [u for u in w.all_types() if w.is_sub(u, t) or w.is_sub(t, u)]
+
+
+def rename(t, old, new):
+    if isinstance(t, str):
+        return new if t == old else t
+    return [rename(x, old, new) for x in t]
+
+
+def plant_alias(rng, w, a):
+    """adds a twin (parameter or constant) of one parameter and literals that coincide when both denote the same object;
+    returns {src, twin, low} or None"""
+    if not a["params"]:
+        a["params"] = [("?x0", rng.choice(w.all_types()))]
+    src, T = rng.choice(a["params"])
+    preds = dict(w.preds)
+    rel = related_types(w, T)
+    strict = [u for u in rel if u != T]
+    T2 = rng.choice(strict) if strict and rng.random() < 0.75 else T
+    low = T2 if w.is_sub(T2, T) else T
+    # a literal that mentions src at positions which also admit the twin's type
+    found = []
+    walk_atoms(a["pre"], preds, found)
+    walk_atoms(a["eff"], preds, found)
+    cands = [l for l in found if src in l[1:] and
+             all(w.is_sub(T2, pt) for x, (_, pt) in zip(l[1:], preds[l[0]]) if x == src)]
+    if cands and rng.random() < 0.6:
+        lit = list(rng.choice(cands))
+    else:
+        ok = []
+        for n, ps in w.preds:
+            pos = [i for i, (_, pt) in enumerate(ps) if w.is_sub(T, pt) and w.is_sub(T2, pt)]
+            if pos:
+                ok.append((n, ps, pos))
+        if not ok:
+            top = T if w.is_sub(T2, T) else T2
+            n = "pa%d" % len(w.preds)
+            ps = [("?a0", top)] + ([("?a1", rng.choice(w.all_types()))] if rng.random() < 0.4 else [])
+            w.preds.append((n, ps))
+            ok = [(n, ps, [0])]
+        n, ps, pos = rng.choice(ok)
+        i = rng.choice(pos)
+        args = []
+        for k, (_, pt) in enumerate(ps):
+            if k == i:
+                args.append(src)
+                continue
+            pool = [x for x in G.terms_for(rng, w, list(a["params"]), pt) if x != src]
+            if not pool:
+                a["params"] = a["params"] + [("?z%d" % k, pt)]
+                pool = ["?z%d" % k]
+            args.append(rng.choice(pool))
+        lit = [n] + args
+    # the twin: a new parameter, or a constant written into the schema
+    use_const = rng.random() < 0.25
+    if use_const:
+        twin = "ca%d" % len(w.consts)
+        w.consts.append((twin, T2 if w.is_sub(T2, T) else T))   # the call binds src to the constant: its type must conform to T
+        ctype = dict(w.consts)[twin]
+        if not all(w.is_sub(ctype, pt) for x, (_, pt) in zip(lit[1:], dict(w.preds)[lit[0]]) if x == src):
+            w.consts.pop()
+            use_const = False
+    if not use_const:
+        twin = "?y%d" % len(a["params"])
+        a["params"] = a["params"] + [(twin, T2)]
+    lit2 = rename(lit, src, twin)
+    other = [x for x in found if x[0] != lit[0]] or [lit]
+    m = list(rng.choice(other))
+    pre = a["pre"]
+    if not (isinstance(pre, list) and pre and pre[0] == "and"):
+        pre = ["and"] + ([pre] if pre else [])
+    eff = list(a["eff"])
+    neg = (lambda x: ["not", x])
+    pol = rng.choice(["pp", "pp", "nn", "pn"])
+    l1 = lit if pol[0] == "p" else neg(lit)
+    l2 = lit2 if pol[1] == "p" else neg(lit2)
+    kinds = rng.sample(["sibling", "nested", "nested", "two-groups", "effect", "when-ante", "numeric", "deep"], rng.randint(1, 3))
+    for kind in kinds:
+        if kind == "sibling":
+            pre = pre + [l1, l2]
+        elif kind == "nested":
+            op = rng.choice(["or", "or", "and"])
+            members = [l2] + ([m] if rng.random() < 0.7 else [])
+            rng.shuffle(members)
+            pre = pre + rng.sample([l1, [op] + members], 2)
+        elif kind == "two-groups":
+            op = rng.choice(["or", "and"])
+            pre = pre + [[op, l1, m], [op, rename(m, src, twin), l2]]
+        elif kind == "deep":
+            pre = pre + [["or", l1, ["and", l2, m]], l2]
+        elif kind == "effect":
+            e1, e2 = (lit, lit2) if rng.random() < 0.6 else (neg(lit), neg(lit2))
+            if rng.random() < 0.5:
+                eff = eff + [e1, e2]
+            else:
+                eff = eff + [["when", rng.choice([l1, ["and", l1, l2], ["or", l2, m]]), ["and", e1, e2]]]
+        elif kind == "when-ante":
+            eff = eff + [["when", ["and", l1, ["or", l2, m]], m if m[0] != lit[0] else lit]]
+        elif kind == "numeric":
+            fs = [(n, ps) for n, ps in w.funcs if len(ps) == 1 and w.is_sub(T, ps[0][1]) and w.is_sub(T2, ps[0][1])]
+            if not fs:
+                top = T if w.is_sub(T2, T) else T2
+                fs = [("fa%d" % len(w.funcs), [("?a0", top)])]
+                w.funcs.append(fs[0])
+            f = rng.choice(fs)[0]
+            c1 = [rng.choice([">=", "<=", ">"]), [f, src], rng.choice(["1", "2"])]
+            c2 = rename(c1, src, twin)
+            pre = pre + ([c1, c2] if rng.random() < 0.5 else [c1, ["or", c2, l2]])
+            if rng.random() < 0.4:
+                eff = eff + [["increase", [f, src], "1"], ["increase", [f, twin], "1"]]
+        w.features.add("alias-" + kind)
+    a["pre"], a["eff"] = pre, eff
+    w.features.add("alias-twin-constant" if use_const else ("alias-twin-other-type" if T2 != T else "alias-twin-same-type"))
+    return {"src": src, "twin": twin, "low": low, "const": use_const}
+
+
+def gen_alias_world(rng):
+    w = G.World()
+    G.gen_types(rng, w, max_types=4)
+    if len(w.types) < 2 and rng.random() < 0.8:          # make sure strict subtypes exist in most worlds
+        w.types, w.type_lines = {}, []
+        w.types["t0"] = "object"
+        w.types["t1"] = "t0"
+        if rng.random() < 0.5:
+            w.types["t2"] = rng.choice(["t1", "t0", "object"])
+        lines = [([c], p) for c, p in w.types.items()]
+        rng.shuffle(lines)
+        w.type_lines = lines
+    G.gen_vocab(rng, w)
+    plans = []
+    for i in range(rng.randint(1, 2)):
+        a = G.gen_action(rng, w, i)
+        if rng.random() < 0.5:                          # a plain body around the planted literals
+            a["pre"], a["eff"] = ["and"], ["and"]
+        plans.append((a, plant_alias(rng, w, a)))
+        w.actions.append(a)
+    return w, plans
+
+
+def build_alias(rng, w, plans, calls_per_action, noise=True):
+    objs = G.gen_objects(rng, w, n=rng.choice([2, 3]))
+    for _, pl in plans:
+        if pl and not pl["const"]:
+            lows = [t for t in w.all_types() if w.is_sub(t, pl["low"])]
+            objs.append(("o%d" % len(objs), rng.choice(lows) if rng.random() < 0.3 else pl["low"]))
+    text = G.render(w.domain_tree("dom"), rng, noise)
+    probes = []
+    for a, pl in plans:
+        universe = list(objs) + list(w.consts)
+        pools = [[o for o, t in universe if w.is_sub(t, pt)] for _, pt in a["params"]]
+        if not all(pools):
+            continue
+        import itertools
+        combos = [list(c) for c in itertools.product(*pools)]
+        rng.shuffle(combos)
+        names = [p for p, _ in a["params"]]
+        if pl["const"]:
+            same = [c for c in combos if c[names.index(pl["src"])] == pl["twin"]]
+        else:
+            same = [c for c in combos if c[names.index(pl["src"])] == c[names.index(pl["twin"])]]
+        rest = [c for c in combos if c not in same]
+        k = max(1, (calls_per_action * 2) // 3)
+        chosen = same[:k] + rest[:max(1, calls_per_action - min(k, len(same)))]
+        for args in chosen:
+            probes.append({"action": a["name"], "args": args, "alias": args in same})
+    return {"domain_text": text, "objects": [list(o) for o in objs], "problem_text": objects_problem(objs),
+            "probes": probes, "features": sorted(w.features), "world": w}
+
+
 # domain / problem pairs shipped under <repo>/tests.  The model and the independent spec reader (Spec/Grammar.v) read all of these
 # domains; fixtures with (:private ...) predicate blocks (multi-agent PDDL: blocks_ma_problem, domain-grinder0) are outside the spec reader.
 FIXTURES = [
@@ -215,8 +404,19 @@ def call_stats(stats, wd, pr, r):
         ty = dict(list(wd["objects"]) + [list(c) for c in w.consts])
         if any(ty.get(x) != pt for x, (_, pt) in zip(args, a["params"])):
             stats["calls_with_subtype_argument"] += 1
+    if pr.get("alias"):
+        stats["calls_binding_one_object_to_twin_terms"] += 1
     if "value" in r:
         o = r["value"]
+        colls = [o["pre"]["lits"]] + [g["disc"] for g in o["groups"]] + [g["ante"]["lits"] for g in o["groups"] if g["ante"]]
+        for c in colls:
+            by_u = {}
+            for l in c:
+                by_u.setdefault(l["u"], []).append(l["t"])
+            if any(len(set(ts)) > 1 for ts in by_u.values()):
+                stats["collections_same_untyped_different_typed"] += 1
+            if any(len(ts) > len(set(ts)) for ts in by_u.values()):
+                stats["collections_same_typed_reported_twice"] += 1
         stats["pre_literals"] += len(o["pre"]["lits"])
         stats["pre_lifted_literals"] += sum(1 for l in o["pre"]["lits"] if not l["g"])
         stats["pre_numeric"] += len(o["pre"]["nums"])
@@ -248,9 +448,13 @@ def run(args):
         n, calls = {"quick": (80, 5), "thorough": (900, 8)}[args.tier]
         for _ in range(n):
             worlds.append(build(rng, gen_world20(rng), calls))
+        for _ in range({"quick": 60, "thorough": 600}[args.tier]):
+            aw, plans = gen_alias_world(rng)
+            worlds.append(build_alias(rng, aw, plans, calls))
     hashseeds = [0] if args.tier == "quick" else [0, 1, 2]
     stats = {"worlds": 0, "calls": 0, "calls_with_repeated_object": 0, "calls_with_constant_argument": 0,
-             "calls_with_subtype_argument": 0, "pre_literals": 0, "pre_lifted_literals": 0, "pre_numeric": 0, "eq_pairs": 0,
+             "calls_with_subtype_argument": 0, "calls_binding_one_object_to_twin_terms": 0,
+             "collections_same_untyped_different_typed": 0, "collections_same_typed_reported_twice": 0, "pre_literals": 0, "pre_lifted_literals": 0, "pre_numeric": 0, "eq_pairs": 0,
              "effect_groups": 0, "effect_literals": 0, "effect_numeric": 0, "typed_call_raised": 0, "ground_raised": 0,
              "features": {}}
     lits, units, cases = [], [], []
